@@ -24,7 +24,7 @@ import (
 type c10Case struct {
 	Containers int    `json:"containers"`
 	TplRes     bool   `json:"template_resources"`
-	Affinity   string `json:"affinity"` // none one two foreign preferred
+	Affinity   string `json:"affinity"` // none one two foreign notin preferred
 	NodeSel    bool   `json:"nodeSelector"`
 	Toleration bool   `json:"toleration"`
 	NodeAnnot  string `json:"node_annotation"` // absent good malformed ghost
@@ -36,7 +36,7 @@ func c10Cases() []c10Case {
 	var out []c10Case
 	for _, nc := range []int{1, 2} {
 		for _, tr := range []bool{false, true} {
-			for _, af := range []string{"none", "one", "two", "foreign", "preferred"} {
+			for _, af := range []string{"none", "one", "two", "foreign", "notin", "preferred"} {
 				for _, ns := range []bool{false, true} {
 					for _, tol := range []bool{false, true} {
 						for _, na := range []string{"absent", "good", "malformed", "ghost"} {
@@ -76,6 +76,11 @@ func c10Template(c c10Case, image string) corev1.PodTemplateSpec {
 		ft := term("k", "a")
 		ft.MatchFields = []corev1.NodeSelectorRequirement{{Key: "metadata.name", Operator: corev1.NodeSelectorOpIn, Values: []string{"some-other-node"}}}
 		t.Spec.Affinity = &corev1.Affinity{NodeAffinity: &corev1.NodeAffinity{RequiredDuringSchedulingIgnoredDuringExecution: &corev1.NodeSelector{NodeSelectorTerms: []corev1.NodeSelectorTerm{ft, term("k", "a")}}}}
+	case "notin":
+		// the template excludes another node by name: a metadata.name requirement with an operator other than In
+		nt := term("k", "a")
+		nt.MatchFields = []corev1.NodeSelectorRequirement{{Key: "metadata.name", Operator: corev1.NodeSelectorOpNotIn, Values: []string{"some-other-node"}}}
+		t.Spec.Affinity = &corev1.Affinity{NodeAffinity: &corev1.NodeAffinity{RequiredDuringSchedulingIgnoredDuringExecution: &corev1.NodeSelector{NodeSelectorTerms: []corev1.NodeSelectorTerm{nt}}}}
 	case "preferred":
 		t.Spec.Affinity = &corev1.Affinity{NodeAffinity: &corev1.NodeAffinity{PreferredDuringSchedulingIgnoredDuringExecution: []corev1.PreferredSchedulingTerm{{Weight: 1, Preference: term("k", "b")}}}}
 	}
@@ -416,5 +421,5 @@ func TestC10(t *testing.T) {
 	run.Sample(cases[17])
 	run.Sample(cases[len(cases)/2+5])
 	run.Assumptions = []string{"a malformed override annotation is not a usable override (falls through to setting / template)", "single node, single applicable setting (C18 decides multiplicity)"}
-	exit(run.Finish("lattice: templates (1-2 containers, with/without resources) x affinity {none, 1 term, 2 terms, foreign metadata.name field, preferred only} x nodeSelector x toleration x node override annotation {absent, well-formed, malformed, other container} x setting {none, requests, limits, both, other container, not valid} x both assignment modes; for each: real R_ers creates the pod (checked), kubelet binds it, a second R_ers must leave it alone, the same first sync is repeated with every single read call rejected (any pod created must still be right), and every applicable single-field perturbation (template, annotation value, annotation added, setting value) must get it deleted; non-trivial = distinct stable classes"))
+	exit(run.Finish("lattice: templates (1-2 containers, with/without resources) x affinity {none, 1 term, 2 terms, foreign metadata.name field, metadata.name NotIn, preferred only} x nodeSelector x toleration x node override annotation {absent, well-formed, malformed, other container} x setting {none, requests, limits, both, other container, not valid} x both assignment modes; for each: real R_ers creates the pod (checked), kubelet binds it, a second R_ers must leave it alone, the same first sync is repeated with every single read call rejected (any pod created must still be right), and every applicable single-field perturbation (template, annotation value, annotation added, setting value) must get it deleted; non-trivial = distinct stable classes"))
 }
